@@ -1,7 +1,9 @@
 //! vharness — drives the real versatiles code for the TLA+-based checks in /verif.
 //! It never judges: it executes cases and records observations as ndjson; TLC decides.
+mod c13;
 mod c15;
 mod c20;
+mod mem;
 mod util;
 
 fn main() {
@@ -15,6 +17,8 @@ fn main() {
 	let seed = util::seed();
 	let thorough = util::tier_is_thorough();
 	let summary = match (args[1].as_str(), args[2].as_str()) {
+		("steps", "C13") => c13::steps(&args[3]),
+		("stress", "C13") => c13::stress(&args[3], &args[4], seed, thorough),
 		("replay", "C15") => c15::replay(&args[3], &args[4]),
 		("record", "C15") => c15::record(&args[3], seed, thorough),
 		("replay", "C20") => c20::replay(&args[3], &args[4]),
